@@ -241,7 +241,8 @@ RandomStep ==
                                          IN  ReplaceConstraint(IF k <= 2 THEN Bin(o, t, s) ELSE IF k <= 4 THEN Bin(o, s, t)
                                                                ELSE Un("NOT", t))
                                   ELSE \E t \in {PickS(TreesOver(Names(model), CtcBinOps, CtcDepth)
-                                            \cup (IF CtcArith THEN ArithTrees(Names(model)) ELSE {}), 14)} : AddConstraint(t)
+                                            \cup (IF CtcArith THEN ArithTrees(Names(model)) ELSE {})
+                                            \cup {ChainT(c[1], SetToSeq(Names(model)), c[2]) : c \in CtcChains}, 14)} : AddConstraint(t)
 
 \* a chain: each relation hangs under the feature created last
 ChainOnly == \A j \in DOMAIN model.rels : model.rels[j].owner = FName(j)
